@@ -211,9 +211,17 @@ def run(ctx, repo, tier):
             row_is_grid = len(loops) == 1 and loops[0].extent == n_b and isinstance(idx, Num) and idx.p == Poly.atom(loops[0].idx)
             good = a.op == "argmin" and dims == [n_b, L] and row_is_grid and ax == 0 and bool(mags) and uses_grid_rot
             detail = f"selector {a.op}, array shape {[d.pretty() for d in dims]}, row index {vstr(idx)}, axis {ax}, magnitude used: {bool(mags)}"
-        ctx.check(good, "SELECT", "C11.rotation", "the grid rotation with the smallest rotation angle (magnitude of the relative rotation) is "
-                  "selected: argmin along the axis that ranges over the n_b grid rotations", qf.where,
-                  "np.argmin(alignment_magnitudes, axis=0)", witness=detail)
+        recognised = isinstance(arr, ObjV) and arr.ext == "ndarray" and "dims" in arr.attrs and len(arr.stores) == 1
+        if a.op == "argmax":
+            ctx.violate("SELECT", "C11.rotation", "the grid rotation with the LARGEST rotation angle is selected (argmax)", qf.where,
+                        "np.argmin(alignment_magnitudes, axis=0)", witness=detail)
+        elif recognised:
+            ctx.check(good, "SELECT", "C11.rotation", "the grid rotation with the smallest rotation angle (magnitude of the relative rotation) is "
+                      "selected: argmin along the axis that ranges over the n_b grid rotations", qf.where,
+                      "np.argmin(alignment_magnitudes, axis=0)", witness=detail)
+        else:
+            ctx.inconclusive("SELECT", "C11.rotation", "the array of rotation magnitudes is not filled in a recognised way (one store per grid "
+                             "rotation)", qf.where, witness=detail)
     # the assignment analyses the second molecule only: its selection must start after the atoms of molecule 1 and agree with the
     # selection used when the pseudotrajectory / reader split the same universe
     from .C10 import selection_siblings
